@@ -346,7 +346,7 @@ func checkC08(tier string) {
 	concs := []int{2, 8, 32, 64}
 
 	// (1) directed provider-free module
-	nDir := r.Pick(32, 160)
+	nDir := r.Pick(32, 600)
 	for j := 0; j < nDir; j++ {
 		compiled := j%4 == 3
 		m := &meta{kind: "directed", conc: concs[j%len(concs)], interp: !compiled, src: c08Directed}
@@ -366,7 +366,7 @@ func checkC08(tier string) {
 		id++
 	}
 	// (3) providers
-	nProv := r.Pick(40, 240)
+	nProv := r.Pick(40, 900)
 	for j := 0; j < nProv; j++ {
 		m := &meta{kind: "provider", conc: []int{4, 16, 32, 64}[j%4], interp: true, src: c08Directed}
 		created := map[string]bool{}
@@ -413,7 +413,7 @@ func checkC08(tier string) {
 		id++
 	}
 	// (2) generated mixes: a sequential twin and a concurrent run of the same module
-	nGen := r.Pick(160, 1200)
+	nGen := r.Pick(160, 5000)
 	for j := 0; j < nGen; j++ {
 		interp := j%2 == 0
 		f := c02Core()
